@@ -14,6 +14,7 @@ Cases == [active : BOOLEAN,
 \*      pool_open (pooled connections still open afterwards), held_status (status the in-flight request got, 0 if none)]
 Check(c, o) ==
   (IF o.stuck \/ ~o.stopped THEN <<"StopDoesNotReturn">> ELSE <<>>)
+  \o (IF o.panic # "" THEN <<"StopPanics">> ELSE <<>>)
   \* the scenarios configure a shutdown timeout of 2 s and a probe timeout of 5 s
   \o (IF o.stop_ms > 2000 THEN <<"StopExceedsShutdownTimeout">> ELSE <<>>)
   \o (IF o.probe_after THEN <<"ProbeAfterStop">> ELSE <<>>)
